@@ -26,6 +26,7 @@ type ChildSpec struct {
 	AckFile   string   `json:"ack_file"`    // one line per acknowledged write step
 	ProfOut   string   `json:"profile_out"` // hook hit counts (profile mode)
 	NoClose   bool     `json:"no_close"`    // exit without closing the engine at the end
+	SnapOut   string   `json:"snap_out"`    // when set: observe the state right after open and write it here
 }
 
 // ChildExitCrash is the exit status of a child that died at its crash point.
@@ -60,6 +61,13 @@ func ChildMain(specPath string) error {
 	r, mm := NewRunner(spec.Dir, spec.Program)
 	if mm != nil {
 		return fmt.Errorf("child open: %v", mm)
+	}
+	if spec.SnapOut != "" {
+		// hooks are live: a crash point inside this observation is a crash point like any other
+		snap := Observe(r.Eng, spec.Program)
+		if err := SaveSnapshot(spec.SnapOut, snap); err != nil {
+			return err
+		}
 	}
 	r.AfterWrite = func(i int) {
 		// plain write(2), no buffering: survives process death
@@ -278,4 +286,55 @@ func trunc(b []byte) []byte {
 		return b[:16]
 	}
 	return b
+}
+
+type snapDoc struct {
+	Gets map[string][]byte `json:"gets"` // hex(key) -> value
+	Scan []KV              `json:"scan"`
+	Err  string            `json:"err"`
+}
+
+// SaveSnapshot writes a snapshot as JSON (atomically: temp file + rename).
+func SaveSnapshot(path string, s *Snapshot) error {
+	d := snapDoc{Gets: map[string][]byte{}, Scan: s.Scan, Err: s.Err}
+	for k, v := range s.Gets {
+		d.Gets[fmt.Sprintf("%x", k)] = v
+	}
+	b, err := json.Marshal(&d)
+	if err != nil {
+		return err
+	}
+	if err := os.WriteFile(path+".tmp", b, 0o644); err != nil {
+		return err
+	}
+	return os.Rename(path+".tmp", path)
+}
+
+// LoadSnapshot reads a snapshot written by SaveSnapshot.
+func LoadSnapshot(path string) (*Snapshot, error) {
+	b, err := os.ReadFile(path)
+	if err != nil {
+		return nil, err
+	}
+	var d snapDoc
+	if err := json.Unmarshal(b, &d); err != nil {
+		return nil, err
+	}
+	s := &Snapshot{Gets: map[string][]byte{}, Scan: d.Scan, Err: d.Err}
+	for hk, v := range d.Gets {
+		var k []byte
+		if _, err := fmt.Sscanf(hk, "%x", &k); err != nil && hk != "" {
+			return nil, err
+		}
+		if v == nil {
+			v = []byte{}
+		}
+		s.Gets[string(k)] = v
+	}
+	for i := range s.Scan {
+		if s.Scan[i].V == nil {
+			s.Scan[i].V = []byte{}
+		}
+	}
+	return s, nil
 }
